@@ -221,13 +221,14 @@ class LDAWrapper(LinearSolver):
                 # Remove all previous components that are already in the database (orthogonalize)
                 xadd = xnew[isel, i]
                 badd = (A @ xnew[..., i])[isel, ...]
+                bnrm0 = np.linalg.norm(badd)
                 for x, b in zip(x_data, b_data):
                     beta = badd @ b.conj() / (b.conj() @ b)
                     badd = badd - beta * b  # Not in-place: the stored vectors may be complex while badd is real
                     xadd = xadd - beta * x
                 bnrm = np.linalg.norm(badd)
-                if not np.isfinite(bnrm) or bnrm == 0:
-                    continue
+                if not np.isfinite(bnrm) or bnrm <= 1e-8 * bnrm0:
+                    continue  # Linearly dependent on the stored vectors, only rounding noise is left
                 badd /= bnrm
                 xadd /= bnrm
                 x_data.append(xadd)
